@@ -212,15 +212,16 @@ void WorkThread::threadProc()
             }
 
             item = popOneTask();    //! 从任务队列中取出优先级最高的任务
+
+            //! 取出任务与标记为"正在执行"必须在同一临界区内完成，
+            //! 否则期间 getTaskStatus() 与 cancel() 会认为该任务不存在
+            if (item != nullptr)
+                d_->doing_tasks_token.insert(item->token);
         }
 
         //! 后面就是去执行任务，不需要再加锁了
         if (item != nullptr) {
             RECORD_SCOPE();
-            {
-                std::lock_guard<std::mutex> lg(d_->lock);
-                d_->doing_tasks_token.insert(item->token);
-            }
 
             LogDbg("thread pick task %u", item->token.id());
 
